@@ -33,6 +33,16 @@ def run(ctx):
     quick = ctx.tier == "quick"
     scs = cc.layout_scenarios(plain if not quick else plain[:700], rnd, 1 if not quick else 2, "layout", ["ru"])
     scs += cc.layout_scenarios(txn[:300] if quick else txn[:4000], rnd, 1, "txn-ru", ["ru"])
+    # log start offset above 0 (retention / DeleteRecords), also inside a batch: oldest = log start, nothing below is delivered
+    ls = cc.layout_scenarios(plain[700:850] if quick else plain[:1500], rnd, 1, "logstart", ["ru"])
+    for s_ in ls:
+        end = cc.log_end(s_["logs"]["0"])
+        if end < 2:
+            continue
+        st = rnd.randrange(1, end)
+        s_["logStart"] = {"0": st}
+        s_["consume"] = [{"part": 0, "start": rnd.choice([-2, -2, st, rnd.randrange(st, end + 1)])}]
+        scs.append(s_)
     scs += cc.fault_scenarios(plain, rnd, 6 if quick else 40)
     scs += cc.slow_reader_scenarios(plain, rnd, 5 if quick else 40)
     scs += cc.newest_scenarios(plain + txn, rnd, 40 if quick else 400)
